@@ -402,7 +402,12 @@ fn process_withdrawals_for_single_pool<C: ContentAddrStore>(
         .fold(0u128, |a, b| a.saturating_add(b));
     // get the state
     let mut pool_state = state.pools.get(pool).unwrap();
-    if total_liqs > pool_state.liqs {
+    // The built-in pools must never be emptied: pegging and the block subsidy divide by their reserves. Their initial
+    // liquidity belongs to nobody, so all of it can only be claimed by tokens the pool never issued (e.g. minted by a faucet).
+    let is_builtin = *pool == PoolKey::new(Denom::Mel, Denom::Sym)
+        || *pool == PoolKey::new(Denom::Mel, Denom::Erg)
+        || *pool == PoolKey::new(Denom::Erg, Denom::Sym);
+    if total_liqs > pool_state.liqs || (is_builtin && total_liqs == pool_state.liqs) {
         // more liquidity tokens than the pool ever issued cannot be redeemed; the requests are left as they are
         return;
     }
